@@ -238,6 +238,8 @@ class Ctx:
                 self.template_inverse[parts] = inv
             for key, g in self.templates.items():
                 self._template_vs_template(parts, f, key, g)
+                self._assoc(parts, f, key, g)
+                self._assoc(key, g, parts, f)
             for s, c in self.lits.items():
                 self._lit_vs_template(s, c, parts, f)
             self.templates[parts] = f
@@ -260,6 +262,17 @@ class Ctx:
             ys = [self.fresh_name("ty") for _ in range(len(b) - 1)]
             self.axioms.append(z3.ForAll(xs + ys, f(*xs) != g(*ys)))
             self.strfacts.append(("disj", a, b))
+
+    def _assoc(self, a, f, b, g):
+        """a ends with a hole, b starts with one:  A(xs.., B(y, ys..)) == B(A(xs.., y), ys..)  (both are the text
+        a0 x1 .. a_{k-1} y b1 y2 ..: concatenation is associative)"""
+        if a[-1] == "" and b[0] == "" and not os.environ.get("PYVC_NO_ASSOC"):
+            xs = [self.fresh_name("ax") for _ in range(len(a) - 1)]
+            ys = [self.fresh_name("ay") for _ in range(len(b) - 1)]
+            lhs = f(*(xs[:-1] + [g(*([xs[-1]] + ys[1:]))]))
+            rhs = g(*([f(*xs)] + ys[1:]))
+            self.axioms.append(z3.ForAll(xs + ys[1:], lhs == rhs, patterns=[lhs]))
+            self.strfacts.append(("assoc", a, b))
 
     def _lit_vs_template(self, s, c, parts, f):
         # s can be produced by the template only if it starts with parts[0] and ends with parts[-1] (and is long enough)
@@ -354,7 +367,9 @@ class Graph:
     def wf(self, ctx):
         """representation invariant of nx.DiGraph: edges join nodes (assumed of every graph that reaches us)."""
         x, y = ctx.fresh_name("wx"), ctx.fresh_name("wy")
-        return z3.ForAll([x, y], z3.Implies(self.edge(x, y), z3.And(self.node(x), self.node(y))))
+        return z3.And(z3.ForAll([x, y], z3.Implies(self.edge(x, y), z3.And(self.node(x), self.node(y)))),
+                      # attribute dicts exist for nodes only
+                      z3.ForAll([x], z3.Implies(z3.Or(z3.Select(self.hasty, x), z3.Select(self.hasout, x)), self.node(x))))
 
     def same(self, other, ctx, fields=None):
         x, y = ctx.fresh_name("sx"), ctx.fresh_name("sy")
